@@ -124,7 +124,8 @@ CacheApply0(p0, e) ==
          IF e.c \notin CCallers \/ e.x # Len(p.ex) + 1 THEN [p |-> p, bad |-> {"UnknownEvent"}]
          ELSE
          LET cl == [ExecutesTheCallersKey |-> p.calls[e.c].on /\ p.calls[e.c].k = e.k,
-                    SingleFlight |-> \A x \in CRunning(p) : p.ex[x].k # e.k]
+                    \* maxsize = 0 means "no caching" (as in functools): calls are passed through
+                    SingleFlight |-> p.ms = 0 \/ \A x \in CRunning(p) : p.ex[x].k # e.k]
              tnt == p.taint \/ (p.calls[e.c].on /\ EvictsBlindly(p, e.c, e.k))
              ttn == p.ttaint \/ (p.ttl # CNOTTL /\ CLatestOk(p, e.k) # 0)
              \* a waiter that finds its key gone after an eviction made during its call gets KeyError
